@@ -12,6 +12,8 @@ import (
 	"math/rand"
 	"os"
 	"path/filepath"
+	"runtime"
+	"runtime/debug"
 	"strings"
 
 	bm "github.com/microcosm-cc/bluemonday"
@@ -267,6 +269,7 @@ func cmdReplay(args []string) int {
 func replayLoopCase(fam *Family, c *loopCase, res *RunResult, rng *rand.Rand, variants int, props []string,
 	cache map[int]*polCacheEntry, seenV, seenNT map[string]bool) {
 	res.Cases++
+	memGuard(cache, res.Cases)
 	pe := cache[c.Rid]
 	if pe == nil {
 		r := fam.Recipes[c.Rid-1]
@@ -525,9 +528,30 @@ func cmdReplayAttrs(args []string) int {
 	return 0
 }
 
+// memGuard: a change to the library may make a policy grow with every call; rather than let the
+// harness be killed, drop the cached real policies when the heap has grown unreasonably (their
+// misbehaviour between two resets is still observed by the oracles).
+var memGuardResets int
+
+func memGuard(cache map[int]*polCacheEntry, n int) {
+	if n%2 != 0 {
+		return
+	}
+	var m runtime.MemStats
+	runtime.ReadMemStats(&m)
+	if m.HeapAlloc > 1<<28 {
+		for k := range cache {
+			delete(cache, k)
+		}
+		memGuardResets++
+		debug.FreeOSMemory()
+	}
+}
+
 func replayAttrsCase(fam *Family, c *attrsCase, res *RunResult, rng *rand.Rand, variants int, props []string,
 	cache map[int]*polCacheEntry, seenV, seenNT map[string]bool) {
 	res.Cases++
+	memGuard(cache, res.Cases)
 	pe := cache[c.Rid]
 	recipe := fam.Recipes[c.Rid-1]
 	if pe == nil {
